@@ -1358,7 +1358,23 @@ pub fn gen_odd_known_customs(m: &mut MSpec, rng: &mut Rng) {
     let places = [0u8, 1, 5, 10, 11, 12, 254, 255];
     let junk = |rng: &mut Rng, n: u64| -> Vec<u8> { (0..rng.below(n)).map(|_| rng.next() as u8).collect() };
     if rng.chance(2, 3) {
-        let data = match rng.below(7) {
+        let data = match rng.below(9) {
+            7 | 8 => {
+                // well-formed leading fields, then a broken one: cut off in the middle, or more fields announced
+                // than there are
+                let mut fields = vec![("language".to_string(), vec![("Rust".to_string(), format!("1.{}.0", rng.range(30, 90)))])];
+                fields.extend(gen_producers(rng));
+                fields.push(("sdk".to_string(), vec![("emsdk".to_string(), "3.1".to_string()), ("wasi-sdk".to_string(), "20".to_string())]));
+                let mut d = crate::mspec::encode_producers(&fields);
+                if rng.bool() {
+                    let first_len = crate::mspec::encode_producers(&fields[..1]).len();
+                    let cut = first_len + 1 + rng.usize(d.len() - first_len - 1);
+                    d.truncate(cut);
+                } else {
+                    d[0] += 1 + rng.below(3) as u8;
+                }
+                d
+            }
             0 => vec![],                                    // no field count at all
             1 => vec![0x80],                                // field count cut off inside its LEB
             2 => vec![0x05],                                // five fields announced, none follows
